@@ -484,6 +484,15 @@ func (g *fnGen) selectField(xv string, xt types.Type, sel string, env *evalEnv) 
 				continue
 			}
 			cur, ct = g.readField(env.cur, structT, fld, cur), fld.Type()
+			// well-formedness of a value read from the heap (slice header, integer range) is a fact of every state
+			switch fld.Type().Underlying().(type) {
+			case *types.Slice, *types.Basic:
+				if env.bound == nil || len(env.bound) == 0 {
+					named := g.define("sf", g.R.sortOf(fld.Type()), cur)
+					g.typeFacts(env.cur, named, fld.Type())
+					cur = named
+				}
+			}
 			continue
 		}
 		info := g.R.structInfoOf(ct)
